@@ -27,8 +27,9 @@ Data == 1..D
 
 (* fixed foreign source tree: a(b), b'  -- b' is a clone of b *)
 SrcB == IF DefDid(1) = DefDid(2) THEN 3 ELSE 2    \* second data value of the source tree
+SrcBDid == IF 11 \in Xids THEN 11 ELSE DefDid(SrcB)   \* configurations with explicit ids: the clones of the source carry one
 SrcPlain == Derive([n |-> 3, par |-> <<0, 1, 0>>, kids |-> << <<2>>, <<>>, <<>> >>, top |-> <<1, 3>>,
-              dat |-> <<1, SrcB, SrcB>>, did |-> <<DefDid(1), DefDid(SrcB), DefDid(SrcB)>>,
+              dat |-> <<1, SrcB, SrcB>>, did |-> <<DefDid(1), SrcBDid, SrcBDid>>,
               knd |-> <<0, 0, 0>>, meta |-> [i \in 1..3 |-> EmptyMeta], reg |-> {}, idx |-> <<>>, typed |-> FALSE])
 SrcTyped == [SrcPlain EXCEPT !.knd = <<1, 2, 1>>, !.typed = TRUE]
 Src == IF Typed THEN SrcTyped ELSE SrcPlain
